@@ -509,6 +509,12 @@ func TestC20(t *testing.T) {
 		{Ops: []loopOp{{Kind: "connect"}, {Kind: "acceptclosing"}}},
 		{Ops: []loopOp{{Kind: "connectfail"}, {Kind: "connect"}, {Kind: "cancel"}}},
 		{Ops: []loopOp{{Kind: "connect"}, {Kind: "connect"}, {Kind: "acceptfail"}}},
+		// closed-listener errors are recognised through wrapping, both sentinels; end-of-input is not one
+		{Ops: []loopOp{{Kind: "connect"}, {Kind: "acceptclosingwrapped", Arg: 0}}},
+		{Ops: []loopOp{{Kind: "connect"}, {Kind: "acceptclosingwrapped", Arg: 1}}},
+		{Ops: []loopOp{{Kind: "acceptclosingwrapped", Arg: 1}}},
+		{Ops: []loopOp{{Kind: "connect"}, {Kind: "acceptfaileof"}}},
+		{Ops: []loopOp{{Kind: "acceptfaileofbare"}}},
 	} {
 		for j := 0; j < 5; j++ {
 			runOne(sc)
